@@ -226,7 +226,7 @@ def aggregate_fields(ctx, rid, key, adt, table, rule="T1", must_exist=True, fami
                     o = ctx.ob("%s.%s.%s" % (rid, short, name), rule, k, "%s.%s is filled from %s" % (
                         short, name, ", ".join(a.split("::")[-1] for a in table[name])))
                     o.loc = ins.line()
-                    at = fd.slice_operand_pure(ins, op)["atoms"]
+                    at = deep_operand_atoms(ctx.an, fd, ins, op)
                     miss = [r for r in table[name] if not (r in at or (r.startswith("call:") and ("decl:" + r[5:]) in at))]
                     ctx.decide(o, not miss, "", "%s.%s built in %s does not derive from %s" % (
                         short, name, k.split("::")[-1], fmt_missing(miss)), loc=ins.line())
@@ -293,7 +293,7 @@ def call_arg_provenance(ctx, rid, key, callee, table, rule="T1", families=True, 
                 if ai >= len(ins.args):
                     ctx.bad(o, "call has only %d arguments" % len(ins.args))
                     continue
-                at = fd.slice_operand_pure(ins, ins.args[ai])["atoms"]
+                at = deep_operand_atoms(ctx.an, fd, ins, ins.args[ai])
                 miss = [r for r in req if not _has(at, r)]
                 bad = [r for r in forb if _has(at, r)]
                 msg = []
@@ -381,3 +381,67 @@ def narrowing_calls(fd, ins, argi, stop_at=()):
             break
         cur = direct_def_instr(fd, cur.args[0])
     return out
+
+
+def _closure_site(an, closure_key):
+    """(parent FnDep, aggregate instr building the closure, calls in the parent that receive it)"""
+    body = an.prog.bodies.get(closure_key)
+    if body is None or not body.parent:
+        return None, None, []
+    pfd = an.fd(body.parent)
+    if pfd is None:
+        return None, None, []
+    agg = None
+    for ins in pfd.body.instrs():
+        if ins.kind == "assign" and ins.rv_kind() == "agg" and ins.rv.get("ak") == "closure":
+            ck = ins.rv["closure"]
+            if pfd.body.key.startswith("bin:"):
+                ck = "bin:" + ck
+            if ck == closure_key:
+                agg = ins
+    users = []
+    if agg is not None:
+        for c in pfd.body.calls():
+            for a in c.args:
+                if a.place is not None and any(d.instr is agg for d in pfd.slice(seed_locals=pfd.operand_uses(a), control=False)["defs"]):
+                    users.append(c)
+                    break
+    return pfd, agg, users
+
+
+def deep_atoms(an, fd, seed_locals, depth=0, control=False):
+    """pure data atoms of the seeds; inside a closure, captured variables are followed into the parent's operands and
+    the closure's own parameters (the elements it is applied to) into the other operands of the call that receives
+    the closure - so a loop body turned into `.map(|x| ..)` keeps its provenance"""
+    sl = fd.slice(seed_locals=seed_locals, control=control)
+    atoms = set(sl["atoms"])
+    if not fd.body.is_closure or depth > 5:
+        return atoms
+    caps = sorted(int(a.split(":")[1]) for a in atoms if a.startswith("capture:"))
+    params = sorted(int(a.split(":")[1]) for a in atoms if a.startswith("param:") and int(a.split(":")[1]) >= 2)
+    if not caps and not params:
+        return atoms
+    pfd, agg, users = _closure_site(an, fd.body.key)
+    if pfd is None or agg is None:
+        return atoms
+    seeds = set()
+    for k in caps:
+        if k < len(agg.ops):
+            seeds |= pfd.operand_uses(agg.ops[k])
+            if agg.ops[k].place is not None:
+                seeds |= pfd.bases(agg.ops[k].place.local)
+    if params:
+        for c in users:
+            for a in c.args:
+                if a.place is not None and not any(d.instr is agg for d in pfd.slice(seed_locals=pfd.operand_uses(a), control=False)["defs"]):
+                    seeds |= pfd.operand_uses(a) | pfd.bases(a.place.local)
+    if seeds:
+        up = deep_atoms(an, pfd, seeds, depth + 1, control)
+        # parameters of the parent are meaningful to the caller only if the parent is the anchored function itself
+        atoms |= up
+    return atoms
+
+
+def deep_operand_atoms(an, fd, ins, op, control=False):
+    seeds = fd.operand_uses(op) | (fd.bases(op.place.local) if op.place is not None else set())
+    return deep_atoms(an, fd, seeds, control=control)
